@@ -487,6 +487,16 @@ def run(ck, prog, ctx):
                 # `self.pmf().skip(n).sum()`: the terms come from a helper that walks the whole support; the lower end of the tail is expressed
                 # as the NUMBER of leading terms to drop (x - min + 1), not as a range.  Whether that number is right is arithmetic over the
                 # support's start, which this rule does not evaluate
+                # ... except for one necessary condition: a sequence that STARTS at `min()` (the support of the distribution begins at
+                # max(0, n + K - N), not at 0) loses its first x - min + 1 terms, so the count handed to `skip` depends on `min()`.  A count made
+                # of x alone drops too many terms whenever the support does not start at 0.
+                starts_at_min = (H + "min") in prog.reachable_bodies([via_helper[0].id])
+                skips_ = [(sb_, st_) for sb_, st_ in sf.calls() if st_.callee.method == "skip" and st_.callee.trait == "std::iter::Iterator" and len(st_.args) == 2]
+                if starts_at_min and len(skips_) == 1:
+                    cnt_ = pvn.of_operand(sf, skips_[0][1].args[1])
+                    uses_min = any(a_[0] == "call" and a_[1] == H + "min" for a_ in cnt_)
+                    ck.ob("TABLE", "sf/skip-count", uses_min, "the terms of %s start at min(); the number of leading terms that sf drops %s" % (via_helper[0].short, "is computed from min()" if uses_min else
+                          "does NOT depend on min(): `skip` counts elements, not values, so for a support that starts above 0 the tail loses x - (x - min) further terms"), where=sf.where(skips_[0][1].line))
                 ck.undecided("TABLE", "sf/all-terms", "the tail sum drops leading terms of %s with skip(n): the tail's lower end is a count relative to the start of the support, not evaluated" % via_helper[0].short, where=sf.where(t.line))
                 continue
             ck.ob("TABLE", "sf/all-terms", not bad, "the tail sum reduces %s" % ("every element of the range (adaptors: %s)" % (chain or ["none"]) if not bad else "a TRUNCATED range (%s): terms of the tail are dropped" % ", ".join(bad)), where=sf.where(t.line))
